@@ -108,6 +108,7 @@ var classTable = []classEntry{
 	ce("singletonExtractedTwice", `Singleton .* is already being extracted`),
 	ce("duplicateFunction", `Duplicate function definition of '`),
 	ce("nameClash", `Duplicate definition of '.*': the name is already used by `),
+	ce("singletonNoDefault", `Singleton type '.*' contains a function or a value of type 'any', which have no default value`),
 	ce("mainParams", `The '.*' function must have 0 parameters`),
 	ce("mainReturn", `The return type of the '.*' function must be '`),
 	ce("mainMissing", `Missing 'main' function`),
